@@ -251,6 +251,14 @@ def require_overflow_checks(P, rep, rule):
               'Cargo.toml', 'overflow-checks = %s' % prof.get('raw'))
 
 
+def adt_of(c, name, pred=None):
+    """ADT table entry of the workspace type called `name`, whatever module it lives in (pred picks among namesakes)"""
+    cands = [a for n, a in sorted(c.adts.items()) if n == name or n.endswith('::' + name)]
+    if pred is not None:
+        cands = [a for a in cands if pred(a)]
+    return cands[0] if cands else None
+
+
 def is_mu(t):
     """a loop-carried value, possibly a component of a loop-carried tuple / Ok(..) accumulator (fold / try_fold)"""
     while isinstance(t, tuple) and t and t[0] in ('field', 'payload'):
